@@ -493,6 +493,46 @@ func runC13(c *Ctx) {
 				r.Violation("C13.4", "Refresh-result:other", c.pos(ret), fmt.Sprintf("Refresh returns %s under %v", d, gs))
 			}
 		}
+		// which of the two is returned when: the refresh's own result exactly when it refreshed
+		okWhen := false
+		for _, iff := range ir.Ifs(rf) {
+			ex, isEx := iff.Cond.(*ssa.Extract)
+			if !isEx || ex.Index != 0 {
+				continue
+			}
+			call, isCall := ex.Tuple.(*ssa.Call)
+			if !isCall || !c.U.CalleeIs(call, "cdi", "(*Cache).refreshIfRequired") {
+				continue
+			}
+			yes := ir.Edge{From: iff.Block(), Succ: 0}
+			okWhen = true
+			for _, ret := range ir.NormalReturns(rf) {
+				res := ir.ReturnResult(ret, 0)
+				check := func(v ssa.Value, at ssa.Instruction) {
+					if e1, ok := v.(*ssa.Extract); ok && e1.Tuple == ssa.Value(call) && e1.Index == 1 {
+						if !ir.OnlyViaEdge(rf, at, yes) {
+							okWhen = false
+						}
+					} else if jc, ok := v.(*ssa.Call); ok && jc.Call.StaticCallee() != nil && jc.Call.StaticCallee().String() == "errors.Join" {
+						if ir.CanReach(rf, ir.PathQuery{FromEdge: &yes, To: at}) && ir.OnlyViaEdge(rf, at, yes) {
+							okWhen = false
+						}
+					}
+				}
+				if phi, isPhi := res.(*ssa.Phi); isPhi && phi.Block() == ret.Block() {
+					for k, e := range phi.Edges {
+						pb := ret.Block().Preds[k]
+						check(e, pb.Instrs[len(pb.Instrs)-1])
+					}
+				} else {
+					check(res, ret)
+				}
+			}
+		}
+		if ok, found, pos := dirErrorCleared(c); found {
+			r.Check("C13.4", "directory-error-cleared", ok, pos, "once a directory can be watched again its entry leaves the directory-error report on every path (an entry disappears at the first refresh after its cause is gone)")
+		}
+		r.Check("C13.4", "Refresh-result-when", okWhen, c.U.Pos(rf.Pos()), "the refresh's own result is returned exactly on the 'refreshed' outcome of refreshIfRequired; an up-to-date cache in auto-refresh mode answers with the join of the recorded errors, not with nil")
 		r.Check("C13.4", "Refresh-result", okRefreshed && okCached, c.U.Pos(rf.Pos()), "Refresh returns the refresh's own result when it refreshed, and the join of the cached per-file errors otherwise")
 	}
 	if rir := c.fn("C13.4", "cdi", "(*Cache).refreshIfRequired"); rir != nil {
